@@ -49,14 +49,18 @@ func ViewWorkload(w *World, sc *Scenario) *WorkloadView {
 			Image: cs.Spec.Template.Spec.Containers[0].Image, UpdateRev: RevisionOf(cs.Name, &cs.Spec.Template),
 			Generation: cs.Generation, ObservedGeneration: cs.Status.ObservedGeneration, Annotations: cs.Annotations, Labels: cs.Labels,
 			ByRevision: map[string]int{}, ReadyByRevision: map[string]int{}}
-		v.Exposure = v.Replicas - ceilPartition(cs.Spec.UpdateStrategy.Partition, v.Replicas)
+		v.Exposure = exposureOf(sc, cs)
 		if cs.Spec.UpdateStrategy.Partition != nil {
 			v.KnobText = "partition=" + cs.Spec.UpdateStrategy.Partition.String()
 		} else {
 			v.KnobText = "partition=<nil>"
 		}
-		if cs.Spec.UpdateStrategy.Paused {
-			v.Exposure = 0
+		if sc.Style == "bluegreen" {
+			ms := "<nil>"
+			if cs.Spec.UpdateStrategy.MaxSurge != nil {
+				ms = cs.Spec.UpdateStrategy.MaxSurge.String()
+			}
+			v.KnobText += " maxSurge=" + ms
 		}
 		_, v.Controlled = cs.Annotations[util.BatchReleaseControlAnnotation]
 		_, v.InProgress = cs.Annotations[util.InRolloutProgressingAnnotation]
@@ -226,7 +230,18 @@ func exposureOf(sc *Scenario, obj interface{}) int {
 			return 0
 		}
 		r := int(*o.Spec.Replicas)
-		return r - ceilPartition(o.Spec.UpdateStrategy.Partition, r)
+		e := r - ceilPartition(o.Spec.UpdateStrategy.Partition, r)
+		if sc.Style == "bluegreen" && controlledOf(o) {
+			// blue-green: new-revision pods are the surge pods (no pod is updated in place while the release holds)
+			ms := 0
+			if o.Spec.UpdateStrategy.MaxSurge != nil {
+				ms, _ = intstr.GetScaledValueFromIntOrPercent(o.Spec.UpdateStrategy.MaxSurge, r, true)
+			}
+			if ms < e {
+				e = ms
+			}
+		}
+		return e
 	case *apps.Deployment:
 		return exposureOfDeployment(sc, o)
 	case *apps.StatefulSet:
